@@ -928,6 +928,11 @@ def beta(n, env=None):
             sub = {p["id"]: a for p, a in zip(f["params"], args)}
             return beta(_subst(f["body"], sub), env)
         path = (f.get("res", {}) or {}).get("path") or n.get("callee") or ""
+        if f.get("k") == "path" and (f.get("res", {}) or {}).get("r") in ("fn", "assoc_fn", "method", "def") and not n.get("callee") and path:
+            # a function item that reached the call position by substitution (`stream()` with stream = io::stdout)
+            n = dict(n)
+            n["callee"] = path
+            n["f"] = f
         m = _re.match(r"^core::num::<impl ([iu](?:8|16|32|64|128|size))>::(\w+)$", path)
         if m and f.get("k") == "path" and args:
             return {"k": "mcall", "m": m.group(2), "recv": args[0], "args": args[1:], "callee": path, "recv_ty": m.group(1), "ty": n.get("ty"), "line": n.get("line")}
